@@ -464,8 +464,9 @@ theorem split_fold (q : Bits) (l x y : List Node) (hx : x.length + l.length ≤ 
 /-- `Bucket.split` of a full good bucket: the two halves by the next identifier bit -/
 theorem split_spec {q : Bits} {b : Bucket} (h : BucketOK m w q b) (hfull : m ≤ b.nodes.length) :
     b.split = some (child0 m q b.nodes, child1 m q b.nodes) := by
+  have hcc : Bucket.childCap b = m := by simp [Bucket.childCap, Gen.splitChildrenInheritCap, h.capEq]
   unfold Bucket.split
-  rw [h.capEq, if_neg (by omega), h.pfx]
+  rw [hcc, h.capEq, if_neg (by omega), h.pfx]
   have := split_fold (m := m) q b.nodes [] [] (by simpa using h.cap) (by simpa using h.cap) h.nodup (by simp) (by simp)
   simp only [this, nil_append]
   rfl
